@@ -105,15 +105,24 @@ def _gen(job):
     return sorted(set(C.generate(g(), count, seed)))
 
 
+def check_witness(data, show=False):
+    w = data["witness"]
+    res = []
+    for m in _group((w["n"], w["traj"], w["ram"] + w["disk"])):
+        seen = set()
+        for pred, detail in m["viol"]:
+            if pred not in seen:
+                seen.add(pred)
+                res.append((("Multistage", pred), m["cfg"], detail, "config"))
+    return res
+
+
 def run(prop, args):
     rep = R.Report(prop, args, RULE)
     if args.replay:
-        w = R.load_replay(args.replay)["witness"]
-        mem = _group((w["n"], w["traj"], w["ram"] + w["disk"]))
-        rep.evaluations = len(mem)
-        for m in mem:
-            for pred, detail in m["viol"]:
-                rep.add_violation(("Multistage", pred), m["cfg"], detail)
+        rep.evaluations = 1
+        for b, w, d, k in check_witness(R.load_replay(args.replay)):
+            rep.add_violation(b, w, d, kind=k)
         return rep.finish()
     tier = args.tier
     NB = 18 if tier == "quick" else 26
@@ -142,6 +151,7 @@ def run(prop, args):
                 if pred not in seen:
                     seen.add(pred)
                     rep.add_violation(("Multistage", pred), cfg, detail)
+    R.run_regress(rep, check_witness)
     rep.assumptions = ["'minimum over all ways of giving that many stack positions to RAM' computed as total accesses minus the sum of the k largest per-position access counts (tie-independent)",
                        "k = min(declared RAM units, n-1, stack positions actually used)"]
 
